@@ -21,7 +21,7 @@ for patch in "$@"; do
     if grep -E '^(--- FAIL|FAIL|panic)' /tmp/ben.err | grep -v -E 'vec/v2 \[build failed\]|^FAIL$' | grep -q .; then echo "TEST-FAIL $patch $(grep -m3 -E 'FAIL|panic' /tmp/ben.err | head -c 300)"; rm -rf "$d"; continue; fi
   fi
   out=$(mktemp -d /tmp/benout.XXXXXX)
-  echo $props | tr ' ' '\n' | xargs -P 10 -I{} sh -c "VERIF_NOEVIDENCE=1 timeout 300 ${BIN:-/verif/bin/sdfxlint} check -p {} -repo $d > $out/{}.txt 2>&1; echo \$? > $out/{}.rc"
+  echo $props | tr ' ' '\n' | xargs -P ${JOBS:-10} -I{} sh -c "VERIF_NOEVIDENCE=1 timeout 300 ${BIN:-/verif/bin/sdfxlint} check -p {} -repo $d > $out/{}.txt 2>&1; echo \$? > $out/{}.rc"
   bad=""
   for p in $props; do
     rc=$(cat $out/$p.rc)
